@@ -719,6 +719,32 @@ func genProto() (string, error) {
 	})
 	fmt.Fprintf(&b, "/-- `NewMultiBLSFromPublicKey` inspects the bits of the signer bitmap beyond the last key (padding must be zero) -/\ndef multisigPaddingEnforced : Bool := %v\n", padChecked)
 	fmt.Fprintf(&b, "def src_NewMultiBLSFromPublicKey : String := %q\n\n", g.StmtsText(mfn.Body.List))
+	// the Ethereum-hash alias: what the indexer files an RLP-backed transaction under and what CheckReplay
+	// looks up must be the same function of the raw bytes, and one that ignores the envelope (sidecar)
+	idxf, err := g.ParseFile(filepath.Join(*repo, "store/indexer.go"))
+	if err != nil {
+		return "", err
+	}
+	lastReturn := func(fd *ast.FuncDecl) string {
+		out := ""
+		for _, st := range fd.Body.List {
+			if rs, ok := st.(*ast.ReturnStmt); ok {
+				out = g.StmtText(rs)
+			}
+		}
+		return out
+	}
+	aliasIdx, aliasFsm := "", ""
+	if fd := idxf.FindFunc("", "ethTxHash"); fd != nil {
+		aliasIdx = lastReturn(fd)
+	}
+	if fd := efile.FindFunc("", "ethereumTxHashFromRawBytes"); fd != nil {
+		aliasFsm = lastReturn(fd)
+	}
+	if aliasIdx == "" || aliasFsm == "" {
+		return "", fmt.Errorf("ethTxHash (store/indexer.go) or ethereumTxHashFromRawBytes (fsm/ethereum.go) not found")
+	}
+	fmt.Fprintf(&b, "/-- (indexer alias, CheckReplay lookup) of an RLP-backed transaction -/\ndef ethAliasReturns : List String := %s\n\n", strList([]string{aliasIdx, aliasFsm}))
 	// 4. public-key decoding by length (lib/crypto/key.go)
 	kf, err := g.ParseFile(filepath.Join(*repo, "lib/crypto/key.go"))
 	if err != nil {
